@@ -2,7 +2,7 @@
 use crate::__verif_common::*;
 use crate::{Limb, MulMod, NonZero, Uint, Word};
 
-//@ prop=C07,C11,C15 tier=quick profile=k8 funcs="Uint::mul_mod_vartime,Uint::mul_mod_special (LIMBS==1: mul_rem),MulMod,Uint::rem_wide_vartime" bound="u8 words, Uint<1>: p = S(3) with free top bit, every a,b < p; special-modulus form for the same p = 2^8 - c" free_bits=21
+//@ prop=C07,C11,C15 tier=quick profile=k8 funcs="Uint::mul_mod_vartime,Uint::mul_mod_special (LIMBS==1: mul_rem),MulMod,Uint::rem_wide_vartime" bound="u8 words, Uint<1>: p = S(3) with free top bit, every a,b < p; special-modulus form for the same p = 2^8 - c" free_bits=21 core=C15
 #[kani::proof]
 #[kani::unwind(8)]
 fn c07_k8_mul_mod_1() {
@@ -49,7 +49,7 @@ fn c07_k8_mul_mod_2() {
     kani::cover!(pv < 0x100);
 }
 
-//@ prop=C07,C11 tier=quick profile=k8 funcs="Uint::mul_mod_special,mac_by_limb" bound="u8 words, Uint<2>: p = 2^16 - c for c = S(3) != 0; a,b with limbs S(2), < p" free_bits=16
+//@ prop=C07,C11 tier=quick profile=k8 funcs="Uint::mul_mod_special,mac_by_limb" bound="u8 words, Uint<2>: p = 2^16 - c for c = S(3) != 0; a,b with limbs S(2), < p" free_bits=16 core=C11
 #[kani::proof]
 #[kani::unwind(8)]
 fn c07_k8_mul_mod_special_2() {
